@@ -20,7 +20,7 @@ func zxC09Less() {
 // C09.S — sorter.Iterate (real sort.Sort) emits a permutation of its input, non-decreasing under
 // the lexicographic comparison of the key list.
 //
-//zx:harness prop=C09 id=C09.S tier=quick shard=nkeys:2,key0:6 L=2 R=3 thorough.R=4
+//zx:harness prop=C09 id=C09.S tier=quick shard=nkeys:2,key0:6 L=2 R=3 thorough.R=4 thorough.shard=nkeys:2,key0:6,key1:6
 func zxC09Sort() {
 	by := zxOrderByN(vrtParam("L", 2), 3)
 	R := vrtParam("R", 3)
